@@ -103,6 +103,8 @@ func (s *State) ExpandMacros(program ast.Node) ast.Node {
 		}
 
 		evalEnv := extendMacroEnv(macro, args)
+		// The body is evaluated under the session's depth limit (a limit of zero fails anything but a bare quote()).
+		evalEnv.MaxDepth = s.MaxDepth
 
 		evaluated := evalEnv.Eval(macro.Body)
 
